@@ -12,6 +12,9 @@ def fl(x):
 
 def check(run, driver):
     from causationentropy.core.information.entropy import poisson_entropy, poisson_joint_entropy
+    from common import EntryPoints as _EP     # the star re-exports of causationentropy.core.information are public paths too
+    poisson_entropy = _EP("poisson_entropy", "causationentropy.core.information.entropy", "causationentropy.core.information")
+    poisson_joint_entropy = _EP("poisson_joint_entropy", "causationentropy.core.information.entropy", "causationentropy.core.information")
 
     run.rule = (
         "scalar rates on a deterministic grid over [0,500] (log-spaced below 1, linear above) plus extremely small rates, 0 and negative rates; "
@@ -81,10 +84,15 @@ def check(run, driver):
         mags[rng.random(shape) < 0.2] = 0.0
         if rng.random() < 0.3:
             mags = -mags
+        if mags.ndim == 2 and min(mags.shape) > 1 and rng.random() < 0.6:
+            mags = np.asfortranarray(mags) if rng.random() < 0.5 else np.ascontiguousarray(mags.T).T     # column-major storage / transposed view: same matrix
         vecs.append(mags)
+    for shp in ((2, 3), (3, 2), (3, 3), (4, 2)):      # always some genuinely two-dimensional matrices in column-major storage
+        m_ = 10.0 ** rng.uniform(-3, 2.5, size=shp)
+        vecs.append(np.asfortranarray(m_)); vecs.append(np.ascontiguousarray(m_.T).T[:, ::-1])
     reqs = []
     for v in vecs:
-        out = np.asarray(poisson_entropy(v.copy()), dtype=float)
+        out = np.asarray(poisson_entropy(np.array(v, copy=True, order="K")), dtype=float)      # (order K: the copy keeps the storage order)
         flat_in = np.abs(v).reshape(-1)
         pos = {float(x) for x in flat_in if x > 0}
         case = {"rates": v}
